@@ -3,7 +3,9 @@
    tables and semantic actions are regenerated from sql/parser.go on every run
    (Gen/ParserTables.v); see also C16. *)
 From Coq Require Import ZArith List String.
-From SQ Require Import Gen.ParserTables Model.SqlParse.
+From SQ Require Import Gen.ParserTables Model.SqlParse Model.Schema Proofs.SchemaP.
+Import ListNotations.
+Open Scope string_scope.
 
 (* the translated grammar file and the translated tables describe the same
    productions (checked by the translator: same count, same lengths) and every
@@ -11,3 +13,37 @@ From SQ Require Import Gen.ParserTables Model.SqlParse.
 Theorem C10_actions_read_defined_values : locality_ok = true.
 Proof. vm_compute. reflexivity. Qed.
 Print Assumptions C10_actions_read_defined_values.
+
+(* db/schema.go's interpretation of a parsed CREATE TABLE (Model/Schema.v: column and table
+   constraints in textual order, rowid alias rule, merging of redundant UNIQUE / PRIMARY KEY
+   constraints, autoindex numbering, the late INTEGER PRIMARY KEY index of WITHOUT ROWID tables,
+   DEFAULT with column affinity; run against db.Schema() on every definition of every run).
+   SQLite's redundancy relation - same columns, same collations, sort order irrelevant - is an
+   equivalence, and for EVERY statement value: a WITHOUT ROWID table has no rowid alias, a rowid
+   table no primary key column list, and the indexes created for constraints are pairwise
+   non-redundant (merging is complete: no two automatic indexes for redundant constraints) *)
+Theorem C10_redundancy_is_equivalence :
+  (forall a, same_index_columns a a = true) /\
+  (forall a b, same_index_columns a b = same_index_columns b a) /\
+  (forall a b c, same_index_columns a b = true -> same_index_columns b c = true -> same_index_columns a c = true).
+Proof. exact (conj same_refl (conj same_sym same_trans)). Qed.
+Print Assumptions C10_redundancy_is_equivalence.
+
+Theorem C10_create_table_invariants : forall ct,
+  let st := new_create_table ct in
+  (sc_wr st = true -> sc_rowidpk st = false /\ Forall (fun c => t_rowid c = false) (sc_cols st)) /\
+  (sc_wr st = false -> sc_pk st = []) /\
+  distinct_ix (sc_indexes st).
+Proof. exact new_create_table_inv. Qed.
+Print Assumptions C10_create_table_invariants.
+
+(* the rules as evaluated by the model on the statements that exposed the repaired defects *)
+Example C10_rowid_alias_rule :
+  is_rowid false "INTEGER" false = true /\ is_rowid false "integer" true = false /\ is_rowid true "Integer" true = true /\ is_rowid true "INT" false = false.
+Proof. vm_compute. repeat split; reflexivity. Qed.
+Example C10_affinity_rule :
+  column_affinity "VARCHAR(10)" = AText /\ column_affinity "CHARINT" = AInteger /\ column_affinity "" = ABlob /\ column_affinity "DOUBLE" = AReal /\
+  column_affinity "DATETIME" = ANumeric /\ column_affinity "FLOATING POINT" = AInteger /\
+  default_with_affinity "TEXT" (VInt 5) = DText "5" /\ default_with_affinity "INT" (VStr " 12 ") = DInt 12 /\
+  default_with_affinity "REAL" (VInt 5) = DReal 4617315517961601024 /\ default_with_affinity "INT" (VStr "0x10") = DText "0x10".
+Proof. vm_compute. repeat split; reflexivity. Qed.
